@@ -597,11 +597,17 @@ func (m *mut) jsonOne(s []byte) (out []byte, shaped bool) {
 	case k < 82: // deep nesting, in place of a value or around the document
 		d := jsonDepths[m.intn(len(jsonDepths), "depth")]
 		open, close, core := "[", "]", "0"
+		// every object of the chain may carry a member whose string value is made to derail a hand-written scanner that
+		// tracks "inside a string" itself (escaped backslash before the closing quote, escaped quote, brackets in a string)
+		decoy := []string{"", "", `"x":"\\",`, `"x":"\"",`, `"x":"\\\"",`, `"x":"}{][",`, `"x":"\u005c",`, `"\\":0,`}[m.intn(8, "decoy")]
 		switch m.intn(3, "shape") {
 		case 1:
-			open, close, core = `{"a":`, "}", "0"
+			open, close, core = `{`+decoy+`"a":`, "}", "0"
 		case 2:
-			open, close, core = `{"type":"thresh","policy":{"n":0,"of":[`, "]}}", `{"type":"above","policy":0}`
+			if m.intn(2, "policyDecoy") == 0 {
+				decoy = []string{`"x":"\\",`, `"\\":0,`, `"x":"a\\",`}[m.intn(3, "pdecoy")]
+			}
+			open, close, core = `{`+decoy+`"type":"thresh","policy":{"n":0,"of":[`, "]}}", `{"type":"above","policy":0}`
 			d = min(d, 3400)
 		}
 		m.note("jnest*%d%s", d, open[:1])
